@@ -194,7 +194,10 @@ def parse_playback_tests(out):
 
 
 def kani_cmd(h, prop, tdir, playback=False):
-    cmd = "cargo kani %s --target-dir %s --harness %s -Z stubbing" % (features_arg(prop), tdir, h["name"])
+    # Kani's harness filter is a substring match unless --exact is given (c15_bounds_b3 would also
+    # run c15_bounds_b31): always pass the fully qualified name
+    module = Path(h["file"]).stem
+    cmd = "cargo kani %s --target-dir %s --harness %s::%s --exact -Z stubbing" % (features_arg(prop), tdir, module, h["name"])
     fl = h.get("flags", "")
     extra = [f for f in fl.split() if f != "stub"]
     if extra or h.get("cbmc"):
